@@ -86,6 +86,10 @@ class RandomState:
             src = x.a.copy()
             gathered = T._sym_getitem(src, (np.array(vals, dtype=object),)) if n else src
             x.a[...] = gathered
+        elif isinstance(x, list):
+            # a Python list of arbitrary objects: the permutation is chosen by the solver (one path per permutation)
+            idx = [int(v) for v in vals]
+            x[:] = [old[i] for i in idx]
         else:
             raise Inconclusive("RandomState.shuffle on a non-array")
 
@@ -217,6 +221,8 @@ def make_numpy():
     m.where = lambda c, a=None, b=None: T.where(c, a, b, cls=NDArray)
     m.nonzero = lambda x: x.nonzero()
     def np_unique(x, *a, **k):
+        if isinstance(x, Arr) and x.a.size and builtins.all(isinstance(v, str) for v in x.a.flat):
+            x = [v for v in x.a.flat]
         if isinstance(x, StrArray) or (isinstance(x, (list, tuple)) and x and builtins.all(isinstance(v, str) for v in x)):
             return StrArray(sorted(set(x.items if isinstance(x, StrArray) else x)))
         return T.unique(x, *a, **k)
@@ -233,6 +239,25 @@ def make_numpy():
     m.repeat = lambda x, r, axis=None: NDArray(np.repeat(_obj(x), r, axis=axis))
     m.isin = lambda x, vals: NDArray(T._uf(lambda v: core.s_or(*[v == w for w in list(_obj(vals).flat)]), 1)(_obj(x)), dtype="bool")
     m.set_printoptions = lambda *a, **k: None
+
+    def _no_nan(x):
+        cells = list(_obj(x).flat)
+        if builtins.any(isinstance(v, float) and v != v for v in cells):
+            raise Inconclusive("NaN cells in a nan-aware reduction are not modelled")
+        return cells
+
+    def nanquantile(x, q, **k):
+        cells = _no_nan(x)
+        if not cells:
+            return NDArray(np.array(float("nan"), dtype=object).reshape(()), dtype="float64")        # numpy: nan (with a RuntimeWarning)
+        return NDArray(np.array(sym_quantile(cells, Fraction(q).limit_denominator(10 ** 6)), dtype=object).reshape(()), dtype="float64")
+    m.nanquantile = nanquantile
+    m.quantile = nanquantile
+
+    def nansum(x, axis=None, **k):
+        _no_nan(x)
+        return _nd(x).sum(axis=axis)
+    m.nansum = nansum
     m.ascontiguousarray = lambda x, dtype=None: (x.copy() if isinstance(x, Arr) else NDArray(_obj(x)))
     m.nan_to_num = lambda x, *a, **k: x
 
@@ -575,6 +600,13 @@ class DataFrame:
     def values(self):
         return [[self.data[c][i] for c in self.columns] for i in range(len(self))]
 
+    def itertuples(self, index=True, name="Pandas"):
+        import collections
+        cols = [c for c in self.columns if isinstance(c, str) and c.isidentifier()]
+        Row = collections.namedtuple(name or "Row", (["Index"] if index else []) + cols, rename=True)
+        for i in range(len(self)):
+            yield Row(*(([i] if index else []) + [self.data[c][i] for c in cols]))
+
     def set_index(self, col):
         d = self.copy()
         d._index = d.data.pop(col)
@@ -646,11 +678,40 @@ class _FastaSeq:
         return len(self.seq)
 
 
+class SymSlice:
+    """seq[start:stop] of a concrete string with symbolic bounds (Python slice semantics, step 1): supports upper(),
+    count(ch) (a symbolic integer) and len() (concretised)"""
+
+    def __init__(self, seq, start, stop, upper=False):
+        n = len(seq)
+
+        def norm(v, default):
+            if v is None:
+                return default
+            if not isinstance(v, Sym):
+                v = int(v)
+                return max(0, v + n) if v < 0 else min(v, n)
+            return core.ite(v < 0, core.s_max(0, v + n), core.s_min(v, n))
+        self.seq, self.lo, self.hi, self._upper = seq, norm(start, 0), norm(stop, n), upper
+
+    def upper(self):
+        return SymSlice(self.seq, self.lo, self.hi, True)
+
+    def count(self, ch):
+        s_ = self.seq.upper() if self._upper else self.seq
+        return core.s_sum([core.ite(core.s_and(self.lo <= p, p < self.hi), 1, 0) for p in range(len(s_)) if s_[p] == ch] or [0])
+
+    def __len__(self):
+        return int(core.s_max(0, self.hi - self.lo))
+
+
 class _FastaRecord:
     def __init__(self, name, seq):
         self.name, self._seq = name, seq
 
     def __getitem__(self, k):
+        if isinstance(k, slice) and k.step is None and (isinstance(k.start, Sym) or isinstance(k.stop, Sym)) and type(self._seq) is str:
+            return _FastaSeq(SymSlice(self._seq, k.start, k.stop))
         return _FastaSeq(self._seq[k] if not (isinstance(k, slice) and k == slice(None)) else self._seq)
 
     def __len__(self):
@@ -688,16 +749,91 @@ def make_pyfaidx():
     return m
 
 
+BIGWIG_REGISTRY = {}     # path -> {chrom: list of per-base values (concrete numbers)}
+
+
 def make_pybigwig():
+    """in-memory model of a bigWig file with concrete per-base values; interval bounds may be symbolic"""
     m = types.ModuleType("pyBigWig")
 
-    def _open(*a, **k):
-        raise Inconclusive("pyBigWig.open is not modelled (files are outside the claim)")
+    class _BW:
+        def __init__(self, tracks):
+            self.tracks = tracks
+
+        def __enter__(self):
+            return self
+
+        def __exit__(self, *a):
+            return False
+
+        def close(self):
+            pass
+
+        def chroms(self):
+            return {c: len(v) for c, v in self.tracks.items()}
+
+        def values(self, chrom, start=0, end=-1, numpy=False):
+            if chrom not in self.tracks:
+                raise RuntimeError("Invalid interval bounds!")
+            v = self.tracks[chrom]
+            if not (start == 0 and end in (-1, len(v))):
+                raise Inconclusive("pyBigWig.values on a sub-interval is not modelled")
+            return NDArray(np.array([float(x) for x in v], dtype=object), dtype="float32") if numpy else list(v)
+
+        def stats(self, chrom, start=0, end=-1, type="mean", exact=False, nBins=1):
+            if chrom not in self.tracks:
+                raise RuntimeError("Invalid interval bounds!")
+            if type != "sum":
+                raise Inconclusive("pyBigWig.stats(type=%r) is not modelled" % (type,))
+            v = self.tracks[chrom]
+            if not bool(core.s_and(start >= 0, start < end, end <= len(v))):
+                raise RuntimeError("Invalid interval bounds!")
+            return [core.s_sum([core.ite(core.s_and(start <= p, p < end), Fraction(v[p]), 0) for p in range(len(v))] or [0])]
+
+    def _open(path, mode="r"):
+        if path not in BIGWIG_REGISTRY:
+            raise Inconclusive("pyBigWig.open(%r): file contents are outside the claim" % (path,))
+        return _BW(BIGWIG_REGISTRY[path])
     m.open = _open
+    return m
+
+
+def sym_sorted(vals):
+    """ascending order of symbolic numbers by a compare-exchange network (min / max terms, no forking)"""
+    v = list(vals)
+    for i in range(len(v)):
+        for j in range(len(v) - 1 - i):
+            a, b = v[j], v[j + 1]
+            v[j], v[j + 1] = core.s_min(a, b), core.s_max(a, b)
+    return v
+
+
+def sym_quantile(vals, q):
+    """numpy.quantile (linear interpolation) of a non-empty list of NaN-free numbers"""
+    v = sym_sorted(vals)
+    pos = Fraction(q) * (len(v) - 1)
+    lo = int(pos)
+    frac = pos - lo
+    return v[lo] if frac == 0 else v[lo] + (v[lo + 1] - v[lo]) * frac
+
+
+def make_joblib():
+    """joblib model: Parallel(n_jobs)(delayed(f)(...) for ...) evaluates the calls in order (n_jobs does not influence the result
+    unless the called function depends on shared state - which the sequential model would show as a difference between calls)"""
+    m = types.ModuleType("joblib")
+    m.delayed = lambda f: (lambda *a, **k: (f, a, k))
+
+    class Parallel:
+        def __init__(self, n_jobs=None, **k):
+            self.n_jobs = n_jobs
+
+        def __call__(self, it):
+            return [f(*a, **k) for f, a, k in it]
+    m.Parallel = Parallel
     return m
 
 
 def standard_shims():
     torch = make_torch()
-    shims = {"torch": torch, "numpy": make_numpy(), "numba": make_numba(), "tqdm": make_tqdm(), "pandas": make_pandas(), "pyfaidx": make_pyfaidx(), "pyBigWig": make_pybigwig()}
+    shims = {"joblib": make_joblib(), "torch": torch, "numpy": make_numpy(), "numba": make_numba(), "tqdm": make_tqdm(), "pandas": make_pandas(), "pyfaidx": make_pyfaidx(), "pyBigWig": make_pybigwig()}
     return shims
